@@ -17,6 +17,8 @@ def uses_c02(prog):
 
 def run(tier, replay=None):
   rep = common.Report(PID, tier, 'other')
+  if replay and K.replay_program_rows(rep, replay):
+    return rep.finish()
   rep.assumptions = [
       'oracle: Core/Eval.v (group_rows, aggregate, ECombine, CNot), evaluated by vm_compute on the generator\'s AST',
       'element order of List/Set and the choice among tied ArgMin/ArgMax candidates are outside the statement: '
